@@ -69,6 +69,11 @@ type worldDef struct {
 	refs  []string        // names that can be checked out: main, v1, feature
 	trees map[string]tree // ref -> tree at that ref
 	build func(ev *env, src string)
+	// world refs3 only (c04_refs_verif_test.go)
+	allRefs  []string          // every ref of the remote
+	history  map[string][]tree // ref -> tree of every commit reachable from it
+	prev     map[string]tree   // ref -> previous versions ('-' sides) of the LFS files changed by the commits of the ref's history
+	postBase func(ev *env, local string) // extra preparation of the base clone with main checked out
 }
 
 // fetchName is the name by which a fresh clone (that only has a local branch for what it checked out) can name ref.
@@ -332,6 +337,8 @@ func (ev *env) base(k baseKey) string {
 				if r := ev.git(local, nil, nf("checkout", "-q", k.head)...); !r.OK() {
 					panic("checkout of base head failed: " + r.String())
 				}
+			} else if bw.def.postBase != nil {
+				bw.def.postBase(ev, local)
 			}
 			// the base must hold the canonical pointer text for every LFS path of the head tree
 			t := bw.def.trees[k.head]
